@@ -848,57 +848,6 @@ pub fn norm_block(b: &Blk) -> Blk {
     }
 }
 
-/// Is the tree outside the proved region H2? `concat_only = false`: a negative number literal
-/// as the left operand of `^` (finding F23) or directly under a type assertion (reads back with
-/// a different shape, same value). `concat_only = true`: a negative number literal as the left
-/// operand of `..` (finding F23b, dense generator only).
-pub fn outside_h2(b: &Blk, concat_only: bool) -> bool {
-    if concat_only { h2_scan(b, 15, false) } else { h2_scan(b, 14, true) }
-}
-
-fn h2_scan(b: &Blk, operator: usize, cast: bool) -> bool {
-    let ex = |e: &Ex| h2_ex(e, operator, cast);
-    let blk = |b: &Blk| h2_scan(b, operator, cast);
-    h2_blk_body(b, &ex, &blk)
-}
-
-fn h2_ex(e: &Ex, operator: usize, with_cast: bool) -> bool {
-    let ex = |e: &Ex| h2_ex(e, operator, with_cast);
-    let blk = |b: &Blk| h2_scan(b, operator, with_cast);
-    let entries = |t: &[Entry]| {
-        t.iter().any(|e| match e {
-            Entry::Val(v) | Entry::Fld(_, v) => ex(v),
-            Entry::Idx(k, v) => ex(k) || ex(v),
-        })
-    };
-    {
-        match e {
-            Ex::Bin(o, l, _)
-                if *o == operator
-                    && !binop(*o).left_needs_parentheses(&to_expr(l))
-                    && ends_with_negative_literal(l) =>
-            {
-                true
-            }
-            Ex::Cast(x, _) if with_cast && matches!(&**x, Ex::Num(n) if n.is_negative()) => true,
-            Ex::Nil | Ex::True | Ex::False | Ex::Varargs | Ex::Str(_) | Ex::Id(_) | Ex::Num(_) => false,
-            Ex::Paren(x) | Ex::Un(_, x) | Ex::Cast(x, _) | Ex::Field(x, _) => ex(x),
-            Ex::Bin(_, l, r) | Ex::Index(l, r) => ex(l) || ex(r),
-            Ex::Call(p, _, a) => {
-                ex(p)
-                    || match a {
-                        Args::Tuple(v) => v.iter().any(ex),
-                        Args::Str(_) => false,
-                        Args::Table(t) => entries(t),
-                    }
-            }
-            Ex::Func(f) => blk(&f.body),
-            Ex::Table(t) => entries(t),
-            Ex::IfExp(c, r, br, e) => ex(c) || ex(r) || ex(e) || br.iter().any(|(a, b)| ex(a) || ex(b)),
-        }
-    }
-}
-
 fn h2_blk_body(b: &Blk, ex: &dyn Fn(&Ex) -> bool, blk: &dyn Fn(&Blk) -> bool) -> bool {
     b.stmts.iter().any(|s| match s {
         St::Assign(a, v) => a.iter().any(ex) || v.iter().any(ex),
@@ -1003,13 +952,3 @@ fn f26_ex(e: &Ex) -> bool {
     }
 }
 
-/// is the last token written for `e` a negative number literal (following the right edge
-/// through operands the printer does not parenthesise)?
-fn ends_with_negative_literal(e: &Ex) -> bool {
-    match e {
-        Ex::Num(n) => n.is_negative(),
-        Ex::Bin(op, _, r) => !binop(*op).right_needs_parentheses(&to_expr(r)) && ends_with_negative_literal(r),
-        Ex::Un(_, x) => !matches!(&**x, Ex::Bin(op, _, _) if *op != 14) && ends_with_negative_literal(x),
-        _ => false,
-    }
-}
